@@ -1253,6 +1253,56 @@ func ruleDualWhere(c *Ctx) {
 		return
 	}
 	c.Check(filtered, "exec.dual-where", "(*Query).exec/dual-arm", pos, "the FROM-less arm calls the WHERE evaluator", "the FROM-less arm of exec projects its row without evaluating WHERE: a failing (or false) predicate of a `FROM dual` query is skipped, the row is returned and no error is reported")
+	if !filtered {
+		return
+	}
+	// ... and its verdict decides: on no path of the arm is a row kept (appended to what is projected) after WHERE said no
+	var entry, from *ssa.BasicBlock
+	for _, b := range exec.Blocks {
+		if len(b.Instrs) == 0 {
+			continue
+		}
+		if iff, ok := b.Instrs[len(b.Instrs)-1].(*ssa.If); ok {
+			if ft := NewTB().Of(iff.Cond); ft.Op == "field" && ft.Name == "dual" {
+				entry, from = b.Succs[0], b
+			}
+		}
+	}
+	if entry == nil {
+		c.Unknown("exec.dual-where", "(*Query).exec/dual-arm/verdict", c.P.Pos(exec.Pos()), "anchor lost: no branch on the dual flag")
+		return
+	}
+	paths, err := WalkFrom(exec, entry, from, WalkCfg{MaxVisits: 2, MaxPaths: 4000})
+	if err != nil {
+		c.Unknown("exec.dual-where", "(*Query).exec/dual-arm/verdict", c.P.Pos(exec.Pos()), err.Error())
+		return
+	}
+	bad := ""
+	for _, p := range paths {
+		if p.Exit != "return" {
+			continue
+		}
+		refused := false
+		for _, e := range p.Effects {
+			if e.Kind == "call" && e.Callee == "ExecWhere" {
+				refused = false
+				if v, isV := e.Instr.(ssa.Value); isV {
+					for _, k := range p.Order {
+						kt := p.KeyTerm[k]
+						if kt != nil && kt.Op == "ext" && kt.Name == "0" && len(kt.Args) == 1 && kt.Args[0].V == v {
+							if val, _ := p.Assumed(k); !val {
+								refused = true
+							}
+						}
+					}
+				}
+			}
+			if refused && e.Kind == "call" && e.Callee == "builtin:append" {
+				bad = "a row is kept although the WHERE evaluator answered false (" + p.String() + ")"
+			}
+		}
+	}
+	c.Check(bad == "", "exec.dual-where", "(*Query).exec/dual-arm/verdict", c.P.Pos(entry.Instrs[0].Pos()), "a row the WHERE evaluator refuses is not projected", bad)
 }
 
 func init() {
